@@ -109,7 +109,7 @@ structure A where
   heap : List AEdge
   /-- allocation sites that may have allocated -/
   alloc : List Nat
-  /-- parameters possibly written / possibly returned -/
+  /-- parameters possibly written; abstract objects (parameters AND sites) possibly returned -/
   w : List Nat
   r : List Nat
 deriving Repr
@@ -171,7 +171,7 @@ def ana (np : Nat) : Stmt → A → A
       if closedB a.heap c then a.set x c else topA
   | .bind x .unknown, a => a.set x (allParams np ++ a.alloc)
   | .write x, a => { a with w := ((a.raw x).filter (· < np) ++ a.w).eraseDups }
-  | .ret x, a => { a with r := ((a.raw x).filter (· < np) ++ a.r).eraseDups }
+  | .ret x, a => { a with r := (a.raw x ++ a.r).eraseDups }
   | .store x l y, a =>
       { a with heap := ((a.raw x).flatMap (fun o => (a.raw y).map (fun o' => (o, l, o'))) ++ a.heap).eraseDups }
   | .seq s t, a => ana np t (ana np s a)
@@ -184,8 +184,16 @@ def ana (np : Nat) : Stmt → A → A
 /-- what is reported: the parameters a function may write -/
 def A.report (np : Nat) (a : A) : List Nat := if a.top then allParams np else a.w
 
-/-- the parameters the result may share memory with -/
-def A.reportRet (np : Nat) (a : A) : List Nat := if a.top then allParams np else a.r
+/-- parameter `p` may be, or may (at the end) hold a reference to, a returned object: some possibly returned abstract
+    object lies in the (checked) closure of `p` under the final abstract heap -/
+def A.reachesRet (a : A) (p : Nat) : Bool :=
+  let c := closeN a.heap (a.heap.length + 1) [p]
+  !closedB a.heap c || a.r.any (fun o => c.contains o)
+
+/-- the parameters the result may share memory with: a returned object is (in the region of) the parameter, or the
+    parameter has come to hold a reference to it (the function stored part of its result INTO the argument) -/
+def A.reportRet (np : Nat) (a : A) : List Nat :=
+  if a.top then allParams np else (allParams np).filter a.reachesRet
 
 def A.empty : A := ⟨false, [], [], [], [], []⟩
 
